@@ -12,6 +12,27 @@ use chumsky::recursive::{Direct, Indirect, Recursive};
 use chumsky::{Boxed, ConfigIterParser, ConfigParser, IterParser, Parser};
 
 pub type X<E> = extra::Full<E, St, Val>;
+
+thread_local! {
+    /// C13: when set, every node of the grammar is built, CLONED, the original dropped and the clone used, so that
+    /// each combinator's (hand-written) Clone impl is on the path of every parse
+    pub static CLONE_NODES: std::cell::Cell<bool> = std::cell::Cell::new(false);
+}
+pub fn clone_nodes() -> bool {
+    CLONE_NODES.with(|c| c.get())
+}
+pub trait Bxd<'a, I: Input<'a>, O, Ex: chumsky::extra::ParserExtra<'a, I>>: Parser<'a, I, O, Ex> + Clone + Sized + 'a {
+    fn bxd(self) -> Boxed<'a, 'a, I, O, Ex> {
+        if clone_nodes() {
+            let c = self.clone();
+            drop(self);
+            Parser::boxed(c)
+        } else {
+            Parser::boxed(self)
+        }
+    }
+}
+impl<'a, I: Input<'a>, O, Ex: chumsky::extra::ParserExtra<'a, I>, Pz: Parser<'a, I, O, Ex> + Clone + Sized + 'a> Bxd<'a, I, O, Ex> for Pz {}
 pub type P<'a, I, E> = Boxed<'a, 'a, I, Val, X<E>>;
 pub enum Bound<'a, I: Kind<'a>, E: ErrTy<'a, I>> {
     Rec(Recursive<Direct<'a, 'a, I, Val, X<E>>>),
@@ -62,10 +83,10 @@ pub trait Kind<'a>: ValueInput<'a, Token: Tok, Span: SpanObs> + Sized + 'a {
 macro_rules! by_ref_impl {
     () => {
         fn any_ref<E: ErrTy<'a, Self>>() -> Result<P<'a, Self, E>, String> {
-            Ok(chumsky::primitive::any_ref::<Self, X<E>>().map(|t: &Self::Token| crate::val::Val::T(t.ch())).boxed())
+            Ok(chumsky::primitive::any_ref::<Self, X<E>>().map(|t: &Self::Token| crate::val::Val::T(t.ch())).bxd())
         }
         fn sel_ref<E: ErrTy<'a, Self>>(ts: Vec<char>) -> Result<P<'a, Self, E>, String> {
-            Ok(chumsky::primitive::select_ref(move |t: &'a Self::Token, _| if ts.contains(&t.ch()) { Some(crate::val::Val::m("sel", crate::val::Val::T(t.ch()))) } else { None }).boxed())
+            Ok(chumsky::primitive::select_ref(move |t: &'a Self::Token, _| if ts.contains(&t.ch()) { Some(crate::val::Val::m("sel", crate::val::Val::T(t.ch()))) } else { None }).bxd())
         }
     };
 }
@@ -93,21 +114,21 @@ macro_rules! text_impl {
             let sl = |s: <$I as chumsky::input::SliceInput<'a>>::Slice| slice_val(s.as_ptr() as usize, s.len());
             let radix = || arg.parse::<u32>().map_err(|e| format!("radix {arg}: {e}"));
             let p: P<'a, $I, R<'a>> = match name {
-                "ws" => text::whitespace::<$I, X<R<'a>>>().to_slice().map(sl).boxed(),
-                "iws" => text::inline_whitespace::<$I, X<R<'a>>>().to_slice().map(sl).boxed(),
+                "ws" => text::whitespace::<$I, X<R<'a>>>().to_slice().map(sl).bxd(),
+                "iws" => text::inline_whitespace::<$I, X<R<'a>>>().to_slice().map(sl).bxd(),
                 "nl" => $nl?,
-                "digits" => text::digits::<$I, X<R<'a>>>(radix()?).to_slice().map(sl).boxed(),
-                "int" => text::int::<$I, X<R<'a>>>(radix()?).map(sl).boxed(),
-                "aident" => text::ascii::ident::<$I, X<R<'a>>>().map(sl).boxed(),
-                "uident" => text::unicode::ident::<$I, X<R<'a>>>().map(sl).boxed(),
-                "akw" => text::ascii::keyword::<$I, _, X<R<'a>>>($kwseq(arg)).map(sl).boxed(),
-                "ukw" => text::unicode::keyword::<$I, _, X<R<'a>>>($kwseq(arg)).map(sl).boxed(),
+                "digits" => text::digits::<$I, X<R<'a>>>(radix()?).to_slice().map(sl).bxd(),
+                "int" => text::int::<$I, X<R<'a>>>(radix()?).map(sl).bxd(),
+                "aident" => text::ascii::ident::<$I, X<R<'a>>>().map(sl).bxd(),
+                "uident" => text::unicode::ident::<$I, X<R<'a>>>().map(sl).bxd(),
+                "akw" => text::ascii::keyword::<$I, _, X<R<'a>>>($kwseq(arg)).map(sl).bxd(),
+                "ukw" => text::unicode::keyword::<$I, _, X<R<'a>>>($kwseq(arg)).map(sl).bxd(),
                 n => return Err(format!("unknown text parser {n}")),
             };
             Ok(same_type::<P<'a, $I, R<'a>>, P<'a, Self, E>>(p))
         }
         fn tpadded<E: ErrTy<'a, Self>>(p: P<'a, Self, E>) -> Result<P<'a, Self, E>, String> {
-            Ok(p.padded().boxed())
+            Ok(p.padded().bxd())
         }
     };
 }
@@ -119,7 +140,7 @@ fn slice_val(ptr: usize, len: usize) -> Val {
 }
 
 fn nl_str<'a>() -> Result<P<'a, &'a str, chumsky::error::Rich<'a, char>>, String> {
-    Ok(chumsky::text::newline::<&'a str, X<chumsky::error::Rich<'a, char>>>().to_slice().map(|s: &'a str| slice_val(s.as_ptr() as usize, s.len())).boxed())
+    Ok(chumsky::text::newline::<&'a str, X<chumsky::error::Rich<'a, char>>>().to_slice().map(|s: &'a str| slice_val(s.as_ptr() as usize, s.len())).bxd())
 }
 /// a keyword for byte inputs: comparable with the matched byte slice and printable as an expectation
 #[derive(Clone)]
@@ -147,7 +168,7 @@ impl<'a> Kind<'a> for &'a str {
         (self.as_ptr() as usize, 1)
     }
     fn toslice<E: ErrTy<'a, Self>>(p: P<'a, Self, E>) -> Result<P<'a, Self, E>, String> {
-        Ok(p.to_slice().map(|s: &'a str| slice_val(s.as_ptr() as usize, s.len())).boxed())
+        Ok(p.to_slice().map(|s: &'a str| slice_val(s.as_ptr() as usize, s.len())).bxd())
     }
 }
 impl<'a> Kind<'a> for &'a [char] {
@@ -157,7 +178,7 @@ impl<'a> Kind<'a> for &'a [char] {
         (self.as_ptr() as usize, std::mem::size_of::<char>())
     }
     fn toslice<E: ErrTy<'a, Self>>(p: P<'a, Self, E>) -> Result<P<'a, Self, E>, String> {
-        Ok(p.to_slice().map(|s: &'a [char]| slice_val(s.as_ptr() as usize, s.len())).boxed())
+        Ok(p.to_slice().map(|s: &'a [char]| slice_val(s.as_ptr() as usize, s.len())).bxd())
     }
 }
 
@@ -177,7 +198,7 @@ impl<'a, const N: usize> Kind<'a> for &'a [char; N] {
         (self.as_ptr() as usize, std::mem::size_of::<char>())
     }
     fn toslice<E: ErrTy<'a, Self>>(p: P<'a, Self, E>) -> Result<P<'a, Self, E>, String> {
-        Ok(p.to_slice().map(|s: &'a [char]| slice_val(s.as_ptr() as usize, s.len())).boxed())
+        Ok(p.to_slice().map(|s: &'a [char]| slice_val(s.as_ptr() as usize, s.len())).bxd())
     }
 }
 impl<'a> Kind<'a> for &'a [u8] {
@@ -189,7 +210,7 @@ impl<'a> Kind<'a> for &'a [u8] {
         (self.as_ptr() as usize, 1)
     }
     fn toslice<E: ErrTy<'a, Self>>(p: P<'a, Self, E>) -> Result<P<'a, Self, E>, String> {
-        Ok(p.to_slice().map(|s: &'a [u8]| slice_val(s.as_ptr() as usize, s.len())).boxed())
+        Ok(p.to_slice().map(|s: &'a [u8]| slice_val(s.as_ptr() as usize, s.len())).bxd())
     }
 }
 impl<'a, It: Iterator<Item = char> + 'a> Kind<'a> for chumsky::input::Stream<It> {
@@ -252,19 +273,20 @@ where
     O: IntoVal,
     R: IterParser<'a, I, O, X<E>> + Clone + 'a,
 {
+    let r = if clone_nodes() { r.clone() } else { r };
     let items = |v: Vec<O>| v.into_iter().map(IntoVal::into_val).collect::<Vec<Val>>();
     Ok(match cons {
-        Cons::Collect("vec") => r.collect::<Vec<O>>().map(move |v| Val::L(items(v))).boxed(),
-        Cons::Collect("count") => r.collect::<usize>().map(|n| Val::I(n as i64)).boxed(),
-        Cons::Collect("count2") => r.count().map(|n| Val::I(n as i64)).boxed(),
-        Cons::Collect("unit") => r.collect::<()>().map(|()| Val::U).boxed(),
+        Cons::Collect("vec") => r.collect::<Vec<O>>().map(move |v| Val::L(items(v))).bxd(),
+        Cons::Collect("count") => r.collect::<usize>().map(|n| Val::I(n as i64)).bxd(),
+        Cons::Collect("count2") => r.count().map(|n| Val::I(n as i64)).bxd(),
+        Cons::Collect("unit") => r.collect::<()>().map(|()| Val::U).bxd(),
         Cons::Collect(s) => return Err(format!("unsupported sink {s}")),
-        Cons::Exact(0) => r.collect_exactly::<[O; 0]>().map(|_| Val::A(vec![])).boxed(),
-        Cons::Exact(1) => r.collect_exactly::<[O; 1]>().map(|a| Val::A(a.into_iter().map(IntoVal::into_val).collect())).boxed(),
-        Cons::Exact(2) => r.collect_exactly::<[O; 2]>().map(|a| Val::A(a.into_iter().map(IntoVal::into_val).collect())).boxed(),
-        Cons::Exact(3) => r.collect_exactly::<[O; 3]>().map(|a| Val::A(a.into_iter().map(IntoVal::into_val).collect())).boxed(),
+        Cons::Exact(0) => r.collect_exactly::<[O; 0]>().map(|_| Val::A(vec![])).bxd(),
+        Cons::Exact(1) => r.collect_exactly::<[O; 1]>().map(|a| Val::A(a.into_iter().map(IntoVal::into_val).collect())).bxd(),
+        Cons::Exact(2) => r.collect_exactly::<[O; 2]>().map(|a| Val::A(a.into_iter().map(IntoVal::into_val).collect())).bxd(),
+        Cons::Exact(3) => r.collect_exactly::<[O; 3]>().map(|a| Val::A(a.into_iter().map(IntoVal::into_val).collect())).bxd(),
         Cons::Exact(n) => return Err(format!("unsupported collect_exactly size {n}")),
-        Cons::Foldl(a, f, false) => a.foldl(r, move |acc, it: O| Val::f(&f, acc, it.into_val())).boxed(),
+        Cons::Foldl(a, f, false) => a.foldl(r, move |acc, it: O| Val::f(&f, acc, it.into_val())).bxd(),
         Cons::Foldl(a, f, true) => a
             .foldl_with(r, move |acc, it: O, e| {
                 let sp = e.span().se();
@@ -272,8 +294,8 @@ where
                 let ic = e.state().count;
                 Val::w(Val::f(&f, acc, it.into_val()), sp.0, sp.1, c, ic)
             })
-            .boxed(),
-        Cons::Foldr(b, f, false) => r.foldr(b, move |it: O, acc| Val::f(&f, it.into_val(), acc)).boxed(),
+            .bxd(),
+        Cons::Foldr(b, f, false) => r.foldr(b, move |it: O, acc| Val::f(&f, it.into_val(), acc)).bxd(),
         Cons::Foldr(b, f, true) => r
             .foldr_with(b, move |it: O, acc, e| {
                 let sp = e.span().se();
@@ -281,7 +303,7 @@ where
                 let ic = e.state().count;
                 Val::w(Val::f(&f, it.into_val(), acc), sp.0, sp.1, c, ic)
             })
-            .boxed(),
+            .bxd(),
     })
 }
 
@@ -363,7 +385,7 @@ where
             if *hi >= 0 {
                 r = r.at_most(*hi as usize);
             }
-            Ok(r.map(|()| Val::U).boxed())
+            Ok(r.map(|()| Val::U).bxd())
         }
         It::Sep(a, s, lo, hi, lead, trail) => {
             let mut r = build(a, env)?.separated_by(build(s, env)?).at_least(*lo);
@@ -376,7 +398,7 @@ where
             if *trail {
                 r = r.allow_trailing();
             }
-            Ok(r.map(|()| Val::U).boxed())
+            Ok(r.map(|()| Val::U).bxd())
         }
         It::CfgRep(inner, how) => match &**inner {
             It::Rep(a, lo, hi) => {
@@ -385,9 +407,9 @@ where
                     r = r.at_most(*hi as usize);
                 }
                 Ok(match how {
-                    0 => r.configure(|cfg, ctx: &Val| cfg.exactly(ctx.ctx_num())).map(|()| Val::U).boxed(),
-                    1 => r.configure(|cfg, ctx: &Val| cfg.at_least(ctx.ctx_num())).map(|()| Val::U).boxed(),
-                    _ => r.configure(|cfg, ctx: &Val| cfg.at_most(ctx.ctx_num())).map(|()| Val::U).boxed(),
+                    0 => r.configure(|cfg, ctx: &Val| cfg.exactly(ctx.ctx_num())).map(|()| Val::U).bxd(),
+                    1 => r.configure(|cfg, ctx: &Val| cfg.at_least(ctx.ctx_num())).map(|()| Val::U).bxd(),
+                    _ => r.configure(|cfg, ctx: &Val| cfg.at_most(ctx.ctx_num())).map(|()| Val::U).bxd(),
                 })
             }
             _ => Err("unsupported configure operand".into()),
@@ -410,7 +432,7 @@ where
             if *hi >= 0 {
                 r = r.at_most(*hi as usize);
             }
-            Ok(r.collect::<String>().map(out).boxed())
+            Ok(r.collect::<String>().map(out).bxd())
         }
         It::Sep(a, s, lo, hi, lead, trail) => {
             let mut r = build(a, env)?.map(ch).separated_by(build(s, env)?).at_least(*lo);
@@ -423,7 +445,7 @@ where
             if *trail {
                 r = r.allow_trailing();
             }
-            Ok(r.collect::<String>().map(out).boxed())
+            Ok(r.collect::<String>().map(out).bxd())
         }
         _ => Err("unsupported String sink operand".into()),
     }
@@ -441,22 +463,22 @@ where
     Ok(match g {
         G::Just(seq) => {
             let s: Vec<I::Token> = tks(seq);
-            just::<_, I, X<E>>(s).map(|s: Vec<I::Token>| Val::S(s.iter().map(|t| t.ch()).collect())).boxed()
+            just::<_, I, X<E>>(s).map(|s: Vec<I::Token>| Val::S(s.iter().map(|t| t.ch()).collect())).bxd()
         }
         G::CfgJust => just::<_, I, X<E>>(Vec::<I::Token>::new())
             .configure(|cfg, ctx: &Val| cfg.seq(tks::<I::Token>(&ctx.ctx_toks())))
             .map(|s: Vec<I::Token>| Val::S(s.iter().map(|t| t.ch()).collect()))
-            .boxed(),
+            .bxd(),
         G::CfgJustR => {
             // the same configurable parser reached through the by-reference ConfigParser impl
             let j: &'a chumsky::primitive::Just<Vec<I::Token>, I, X<E>> = Box::leak(Box::new(just::<_, I, X<E>>(Vec::<I::Token>::new())));
             j.configure(|cfg, ctx: &Val| cfg.seq(tks::<I::Token>(&ctx.ctx_toks())))
                 .map(|s: Vec<I::Token>| Val::S(s.iter().map(|t| t.ch()).collect()))
-                .boxed()
+                .bxd()
         }
-        G::Any => any::<I, X<E>>().map(|t: I::Token| crate::val::Val::T(t.ch())).boxed(),
-        G::OneOf(ts) => one_of::<_, I, X<E>>(tks::<I::Token>(ts)).map(|t: I::Token| crate::val::Val::T(t.ch())).boxed(),
-        G::NoneOf(ts) => none_of::<_, I, X<E>>(tks::<I::Token>(ts)).map(|t: I::Token| crate::val::Val::T(t.ch())).boxed(),
+        G::Any => any::<I, X<E>>().map(|t: I::Token| crate::val::Val::T(t.ch())).bxd(),
+        G::OneOf(ts) => one_of::<_, I, X<E>>(tks::<I::Token>(ts)).map(|t: I::Token| crate::val::Val::T(t.ch())).bxd(),
+        G::NoneOf(ts) => none_of::<_, I, X<E>>(tks::<I::Token>(ts)).map(|t: I::Token| crate::val::Val::T(t.ch())).bxd(),
         G::Sel(ts) => {
             let ts = ts.clone();
             chumsky::primitive::select(move |t: I::Token, _| {
@@ -466,12 +488,12 @@ where
                     None
                 }
             })
-            .boxed()
+            .bxd()
         }
         G::AnyR => I::any_ref::<E>()?,
         G::SelR(ts) => I::sel_ref::<E>(ts.clone())?,
-        G::End => end::<I, X<E>>().map(|()| Val::U).boxed(),
-        G::Empty => empty::<I, X<E>>().map(|()| Val::U).boxed(),
+        G::End => end::<I, X<E>>().map(|()| Val::U).bxd(),
+        G::Empty => empty::<I, X<E>>().map(|()| Val::U).bxd(),
         G::Cust(k, ok) => {
             let (k, ok) = (*k, *ok);
             custom(move |inp: &mut InputRef<'a, '_, I, X<E>>| {
@@ -489,7 +511,7 @@ where
                     Err(E::user(sp, "cu"))
                 }
             })
-            .boxed()
+            .bxd()
         }
         G::Probe(id) => {
             let id = *id;
@@ -500,33 +522,33 @@ where
                 log_ev(Ev { id, cur: loc_to_idx(loc), insp: st.count, hash: st.hash, ctx });
                 Ok(Val::U)
             })
-            .boxed()
+            .bxd()
         }
         G::Then(a, b) => {
             let (a, b) = b2(a, b, env)?;
-            a.then(b).map(|(x, y)| Val::p(x, y)).boxed()
+            a.then(b).map(|(x, y)| Val::p(x, y)).bxd()
         }
         G::IThen(a, b) => {
             let (a, b) = b2(a, b, env)?;
-            a.ignore_then(b).boxed()
+            a.ignore_then(b).bxd()
         }
         G::ThenI(a, b) => {
             let (a, b) = b2(a, b, env)?;
-            a.then_ignore(b).boxed()
+            a.then_ignore(b).bxd()
         }
-        G::Delim(a, s, e) => build(a, env)?.delimited_by(build(s, env)?, build(e, env)?).boxed(),
-        G::Padded(a, p) => build(a, env)?.padded_by(build(p, env)?).boxed(),
+        G::Delim(a, s, e) => build(a, env)?.delimited_by(build(s, env)?, build(e, env)?).bxd(),
+        G::Padded(a, p) => build(a, env)?.padded_by(build(p, env)?).bxd(),
         G::Group(ps) => {
             let mut v = ps.iter().map(|p| build(p, env)).collect::<Result<Vec<_>, _>>()?;
             match v.len() {
-                1 => group((v.remove(0),)).map(|(a,)| Val::G(vec![a])).boxed(),
+                1 => group((v.remove(0),)).map(|(a,)| Val::G(vec![a])).bxd(),
                 2 => {
                     let (b, a) = (v.pop().unwrap(), v.pop().unwrap());
-                    group((a, b)).map(|(a, b)| Val::G(vec![a, b])).boxed()
+                    group((a, b)).map(|(a, b)| Val::G(vec![a, b])).bxd()
                 }
                 3 => {
                     let (c, b, a) = (v.pop().unwrap(), v.pop().unwrap(), v.pop().unwrap());
-                    group((a, b, c)).map(|(a, b, c)| Val::G(vec![a, b, c])).boxed()
+                    group((a, b, c)).map(|(a, b, c)| Val::G(vec![a, b, c])).bxd()
                 }
                 n => return Err(format!("unsupported group size {n}")),
             }
@@ -534,44 +556,44 @@ where
         G::GroupArr(ps) => {
             let mut v = ps.iter().map(|p| build(p, env)).collect::<Result<Vec<_>, _>>()?;
             match v.len() {
-                1 => group([v.remove(0)]).map(|a: [Val; 1]| Val::A(a.into_iter().collect())).boxed(),
+                1 => group([v.remove(0)]).map(|a: [Val; 1]| Val::A(a.into_iter().collect())).bxd(),
                 2 => {
                     let (b, a) = (v.pop().unwrap(), v.pop().unwrap());
-                    group([a, b]).map(|a: [Val; 2]| Val::A(a.into_iter().collect())).boxed()
+                    group([a, b]).map(|a: [Val; 2]| Val::A(a.into_iter().collect())).bxd()
                 }
                 3 => {
                     let (c, b, a) = (v.pop().unwrap(), v.pop().unwrap(), v.pop().unwrap());
-                    group([a, b, c]).map(|a: [Val; 3]| Val::A(a.into_iter().collect())).boxed()
+                    group([a, b, c]).map(|a: [Val; 3]| Val::A(a.into_iter().collect())).bxd()
                 }
                 n => return Err(format!("unsupported group array size {n}")),
             }
         }
         G::Or(a, b) => {
             let (a, b) = b2(a, b, env)?;
-            a.or(b).boxed()
+            a.or(b).bxd()
         }
         G::Choice(ps) => {
             let mut v = ps.iter().map(|p| build(p, env)).collect::<Result<Vec<_>, _>>()?;
             match v.len() {
-                1 => choice((v.remove(0),)).boxed(),
+                1 => choice((v.remove(0),)).bxd(),
                 2 => {
                     let (b, a) = (v.pop().unwrap(), v.pop().unwrap());
-                    choice((a, b)).boxed()
+                    choice((a, b)).bxd()
                 }
                 3 => {
                     let (c, b, a) = (v.pop().unwrap(), v.pop().unwrap(), v.pop().unwrap());
-                    choice((a, b, c)).boxed()
+                    choice((a, b, c)).bxd()
                 }
                 4 => {
                     let (d, c, b, a) = (v.pop().unwrap(), v.pop().unwrap(), v.pop().unwrap(), v.pop().unwrap());
-                    choice((a, b, c, d)).boxed()
+                    choice((a, b, c, d)).bxd()
                 }
                 n => return Err(format!("unsupported tuple choice size {n}")),
             }
         }
         G::ChoiceV(ps) => {
             let v = ps.iter().map(|p| build(p, env)).collect::<Result<Vec<_>, _>>()?;
-            choice(v).boxed()
+            choice(v).bxd()
         }
         G::OrNot(a) => build(a, env)?
             .or_not()
@@ -579,34 +601,34 @@ where
                 Some(v) => Val::O(Box::new(v)),
                 None => Val::N,
             })
-            .boxed(),
-        G::Not(a) => build(a, env)?.not().map(|()| Val::U).boxed(),
+            .bxd(),
+        G::Not(a) => build(a, env)?.not().map(|()| Val::U).bxd(),
         G::AndIs(a, b) => {
             let (a, b) = b2(a, b, env)?;
-            a.and_is(b).boxed()
+            a.and_is(b).bxd()
         }
-        G::Rewind(a) => build(a, env)?.rewind().boxed(),
+        G::Rewind(a) => build(a, env)?.rewind().bxd(),
         G::Map(a, f) => {
             let f = f.clone();
-            build(a, env)?.map(move |v| map_fn(&f, v)).boxed()
+            build(a, env)?.map(move |v| map_fn(&f, v)).bxd()
         }
-        G::To(a, c) => build(a, env)?.to(Val::k(c)).boxed(),
-        G::Ignored(a) => build(a, env)?.ignored().map(|()| Val::U).boxed(),
+        G::To(a, c) => build(a, env)?.to(Val::k(c)).bxd(),
+        G::Ignored(a) => build(a, env)?.ignored().map(|()| Val::U).bxd(),
         G::Filter(a, p) => {
             let p = p.clone();
-            build(a, env)?.filter(move |v| pred(&p, v)).boxed()
+            build(a, env)?.filter(move |v| pred(&p, v)).bxd()
         }
         G::TryMap(a, p) => {
             let p = p.clone();
             build(a, env)?
                 .try_map(move |v, span| if pred(&p, &v) { Ok(v) } else { Err(E::user(span, "tm")) })
-                .boxed()
+                .bxd()
         }
         G::TryMapW(a, p) => {
             let p = p.clone();
             build(a, env)?
                 .try_map_with(move |v, e| if pred(&p, &v) { Ok(v) } else { Err(E::user(e.span(), "tw")) })
-                .boxed()
+                .bxd()
         }
         G::Validate(a, id, p) => {
             let (id, p) = (format!("v{id}"), p.clone());
@@ -617,7 +639,7 @@ where
                     }
                     v
                 })
-                .boxed()
+                .bxd()
         }
         G::Mw(a) => build(a, env)?
             .map_with(|v, e| {
@@ -626,11 +648,11 @@ where
                 let ic = e.state().count;
                 Val::w(v, sp.0, sp.1, c, ic)
             })
-            .boxed(),
-        G::ToSpan(a) => build(a, env)?.to_span().map(|s: I::Span| span_val(&s)).boxed(),
+            .bxd(),
+        G::ToSpan(a) => build(a, env)?.to_span().map(|s: I::Span| span_val(&s)).bxd(),
         G::ToSlice(a) => I::toslice::<E>(build(a, env)?)?,
-        G::Boxed(a) => build(a, env)?.boxed().boxed(),
-        G::Lazy(a) => build(a, env)?.lazy().boxed(),
+        G::Boxed(a) => Parser::boxed(build(a, env)?).bxd(),
+        G::Lazy(a) => build(a, env)?.lazy().bxd(),
         G::Collect(it, sink) if sink == "str" => collect_str(it, env)?,
         G::Collect(it, sink) => with_iter(it, env, Cons::Collect(sink))?,
         G::Exact(it, n) => with_iter(it, env, Cons::Exact(*n))?,
@@ -642,18 +664,18 @@ where
         G::Recover(a, s) => {
             let a = build(a, env)?;
             match s {
-                Strat::Via(p) => a.recover_with(via_parser(build(p, env)?)).boxed(),
+                Strat::Via(p) => a.recover_with(via_parser(build(p, env)?)).bxd(),
                 Strat::SkipUntil(sk, un) => a
                     .recover_with(skip_until(build(sk, env)?.ignored(), build(un, env)?.ignored(), || Val::E("su".into())))
-                    .boxed(),
-                Strat::Retry(sk, un) => a.recover_with(skip_then_retry_until(build(sk, env)?.ignored(), build(un, env)?.ignored())).boxed(),
+                    .bxd(),
+                Strat::Retry(sk, un) => a.recover_with(skip_then_retry_until(build(sk, env)?.ignored(), build(un, env)?.ignored())).bxd(),
                 Strat::Nested(st, en, others) => {
                     let (st, en) = (I::Token::from_ch(*st), I::Token::from_ch(*en));
                     match others.len() {
-                        0 => a.recover_with(via_parser(nested_delimiters(st, en, [], |sp: I::Span| Val::m("nd", span_val(&sp))))).boxed(),
+                        0 => a.recover_with(via_parser(nested_delimiters(st, en, [], |sp: I::Span| Val::m("nd", span_val(&sp))))).bxd(),
                         1 => {
                             let o = [(I::Token::from_ch(others[0].0), I::Token::from_ch(others[0].1))];
-                            a.recover_with(via_parser(nested_delimiters(st, en, o, |sp: I::Span| Val::m("nd", span_val(&sp))))).boxed()
+                            a.recover_with(via_parser(nested_delimiters(st, en, o, |sp: I::Span| Val::m("nd", span_val(&sp))))).bxd()
                         }
                         n => return Err(format!("unsupported nested_delimiters arity {n}")),
                     }
@@ -664,20 +686,20 @@ where
             let l: &'static str = Box::leak(l.clone().into_boxed_str());
             let p = build(a, env)?.labelled(l);
             if *isctx {
-                p.as_context().boxed()
+                p.as_context().bxd()
             } else {
-                p.boxed()
+                p.bxd()
             }
         }
         G::MapErr(a, f) => match f.as_str() {
-            "id" => build(a, env)?.map_err(|e: E| e).boxed(),
-            "tag" => build(a, env)?.map_err(|e: E| e.retag("me")).boxed(),
+            "id" => build(a, env)?.map_err(|e: E| e).bxd(),
+            "tag" => build(a, env)?.map_err(|e: E| e.retag("me")).bxd(),
             f => return Err(format!("unknown map_err function {f}")),
         },
         // directly nested: no box in between, as a user writing p.memoized().memoized() gets it
         G::Memo(a) => match &**a {
-            G::Memo(inner) => build(inner, env)?.memoized().memoized().boxed(),
-            _ => build(a, env)?.memoized().boxed(),
+            G::Memo(inner) => build(inner, env)?.memoized().memoized().bxd(),
+            _ => build(a, env)?.memoized().bxd(),
         },
         G::Rec(body) => {
             let mut err = None;
@@ -688,14 +710,14 @@ where
                     Ok(p) => p,
                     Err(e) => {
                         err = Some(e);
-                        chumsky::primitive::todo::<I, Val, X<E>>().boxed()
+                        chumsky::primitive::todo::<I, Val, X<E>>().bxd()
                     }
                 }
             });
             if let Some(e) = err {
                 return Err(e);
             }
-            p.boxed()
+            p.bxd()
         }
         G::RecD(body) => {
             // the same definition through the declare / define API
@@ -704,15 +726,15 @@ where
             env2.push(Bound::RecI(decl.clone()));
             let b = build(body, &env2)?;
             decl.define(b);
-            decl.boxed()
+            decl.bxd()
         }
         G::Ref(k) => {
             if *k == 0 || *k > env.len() {
                 return Err(format!("dangling recursive reference {k}"));
             }
             match &env[env.len() - *k] {
-                Bound::Rec(r) => r.clone().boxed(),
-                Bound::RecI(r) => r.clone().boxed(),
+                Bound::Rec(r) => r.clone().bxd(),
+                Bound::RecI(r) => r.clone().bxd(),
                 Bound::Let(..) => return Err("ref to a let binding".into()),
             }
         }
@@ -732,20 +754,20 @@ where
                 Bound::Rec(_) | Bound::RecI(_) => return Err("var to a rec binding".into()),
             }
         }
-        G::WithCtx(c, a) => build(a, env)?.with_ctx(c.clone()).boxed(),
+        G::WithCtx(c, a) => build(a, env)?.with_ctx(c.clone()).bxd(),
         G::ThenCtx(a, b) => {
             let (a, b) = b2(a, b, env)?;
-            a.then_with_ctx(b).map(|(x, y)| Val::p(x, y)).boxed()
+            a.then_with_ctx(b).map(|(x, y)| Val::p(x, y)).bxd()
         }
         G::IgnCtx(a, b) => {
             let (a, b) = b2(a, b, env)?;
-            a.ignore_with_ctx(b).boxed()
+            a.ignore_with_ctx(b).bxd()
         }
         G::MapCtx(f, a) => {
             let f = f.clone();
-            chumsky::primitive::map_ctx::<_, _, I, X<E>, X<E>, _>(move |c: &Val| map_fn(&f, c.clone()), build(a, env)?).boxed()
+            chumsky::primitive::map_ctx::<_, _, I, X<E>, X<E>, _>(move |c: &Val| map_fn(&f, c.clone()), build(a, env)?).bxd()
         }
-        G::WithState(a) => build(a, env)?.with_state(St::default()).boxed(),
+        G::WithState(a) => build(a, env)?.with_state(St::default()).bxd(),
         G::Text(name, arg) => I::text::<E>(name, arg)?,
         G::TPadded(a) => I::tpadded::<E>(build(a, env)?)?,
         G::Nested(a, b) => crate::tree::nested(build(a, env)?, crate::tree::build_b(b, env)?),
@@ -773,28 +795,28 @@ where
                 bops.push(b);
             }
             match (table.as_str(), bops.len()) {
-                ("vec", _) => atom.pratt(bops).boxed(),
-                ("tuple", 1) => atom.pratt((bops.remove(0),)).boxed(),
+                ("vec", _) => atom.pratt(bops).bxd(),
+                ("tuple", 1) => atom.pratt((bops.remove(0),)).bxd(),
                 ("tuple", 2) => {
                     let (b, a) = (bops.pop().unwrap(), bops.pop().unwrap());
-                    atom.pratt((a, b)).boxed()
+                    atom.pratt((a, b)).bxd()
                 }
                 ("tuple", 3) => {
                     let (c, b, a) = (bops.pop().unwrap(), bops.pop().unwrap(), bops.pop().unwrap());
-                    atom.pratt((a, b, c)).boxed()
+                    atom.pratt((a, b, c)).bxd()
                 }
                 ("tuple", 4) => {
                     let (d, c, b, a) = (bops.pop().unwrap(), bops.pop().unwrap(), bops.pop().unwrap(), bops.pop().unwrap());
-                    atom.pratt((a, b, c, d)).boxed()
+                    atom.pratt((a, b, c, d)).bxd()
                 }
                 ("tuple", 5) => {
                     let (e5, d, c, b, a) = (bops.pop().unwrap(), bops.pop().unwrap(), bops.pop().unwrap(), bops.pop().unwrap(), bops.pop().unwrap());
-                    atom.pratt((a, b, c, d, e5)).boxed()
+                    atom.pratt((a, b, c, d, e5)).bxd()
                 }
                 ("tuple", 6) => {
                     let (f6, e5, d, c, b, a) =
                         (bops.pop().unwrap(), bops.pop().unwrap(), bops.pop().unwrap(), bops.pop().unwrap(), bops.pop().unwrap(), bops.pop().unwrap());
-                    atom.pratt((a, b, c, d, e5, f6)).boxed()
+                    atom.pratt((a, b, c, d, e5, f6)).bxd()
                 }
                 (t, n) => return Err(format!("unsupported operator table {t} of size {n}")),
             }
